@@ -5,7 +5,7 @@ import vcommon as vc
 
 RULE = ("cases = (ntype, direction, count, strides, in-place/disjoint offsets, random bytes) drawn from one PRNG "
         "(VERIF_SEED): every supported type x flavour x direction, counts 1..9, strides {0/0, w, w+1..3w}, "
-        "in-place and both disjoint orders; plus unsupported types and count 0 (must FAIL); plus all 2^8 "
+        "in-place (same layout and packing with destination stride <= source stride) and both disjoint orders; a decoy DFKsetNT of another type precedes every DFKconvert; plus unsupported types and count 0 (must FAIL); plus all 2^8 "
         "one-byte and a 2^16 sweep of two-byte patterns per 16-bit type (thorough: every 16-bit pattern). "
         "A case is non-trivial when it lies in the property's domain and moves at least one byte; distinct by "
         "(type, direction, geometry, data)")
@@ -43,8 +43,14 @@ def gen_cases(ctx):
                         ss = w + r.randrange(0, 2 * w + 1)
                         ds = w + r.randrange(0, 2 * w + 1)
                     se, de = (w, w) if (ss == 0 and ds == 0) else (ss, ds)
-                    place = r.choice(["in", "lo", "hi"])
-                    if place == "in":
+                    place = r.choice(["in", "lo", "hi", "pack"])
+                    if place == "pack" and kind == "s":
+                        # in place, packing towards the front: destination stride <= source stride
+                        ds = r.randrange(w, ss + 1)
+                        de = ds
+                        s = d = r.randrange(0, 4)
+                        ln = s + (n - 1) * se + w + r.randrange(0, 3)
+                    elif place in ("in", "pack"):
                         ds = ss
                         de = se
                         s = d = r.randrange(0, 4)
